@@ -1,7 +1,7 @@
 /-
   C15 model driver.  Input lines (same as harness/cmd/c15):
       case <api> <k> <v> <mode> <pre> <w> | <program>
-  Output: res=<ok|exc|intr:V> log=<events> st=<flag>/<jobs>/<call>/<try> after=<..> log2=<..> st2=<..> leaked=<0|1>
+  Output: res=<ok|exc|intr:V> log=<events> st=<flag>/<jobs>/<call>/<try> after=<..> log2=<..> st2=<..>
   `soak` lines are implementation-only (the model's statement about them is theorem `prompt`); answered "soak".
 -/
 import GojaModel.Base.Proto
@@ -63,8 +63,8 @@ def parseStmt : Nat → List String → Option (Stmt × List String)
     | some (b, rest') => some (Stmt.enqueue b, rest')
     | none => none
   | fuel + 1, "A" :: rest =>
-    -- (async function(){ PRE; await 1; POST })():  body up to the await runs in a generator-style (leaky) frame,
-    -- the continuation is a promise job that re-enters through generator.next (leaky frame again)
+    -- (async function(){ PRE; await 1; POST })():  body up to the await runs in a generator frame (asyncRunner.start),
+    -- the continuation is a promise job that re-enters through generator.next (generator frame again)
     match parseBlock fuel rest with
     | some (pre, r1) =>
       match parseBlock fuel r1 with
@@ -104,16 +104,17 @@ def modelFuel : Nat := 1000000
 
 def runCase (hdr : List String) (prog : List Stmt) : String :=
   match hdr with
-  | [_api, k, v, _mode, pre, w] =>
+  | [api, k, v, _mode, pre, w] =>
     match k.toNat?, v.toNat?, w.toNat? with
     | some k, some v, some w =>
       let st0 : St := {}
       let st0 := if pre == "intr" then { st0 with flag := true, val := w }
                  else if pre == "intrclear" then { st0 with flag := false, val := w }   -- Interrupt(w); ClearInterrupt()
                  else st0
-      let (o1, st1) := apiCall modelFuel ⟨k, v⟩ prog st0
+      -- api `try` = Runtime.Try: same frames, but leave() is not called (queued jobs wait for the next call)
+      let (o1, st1) := apiCallJ (api != "try") modelFuel ⟨k, v⟩ prog st0
       let (o2, st2) := apiCall modelFuel ⟨0, 0⟩ [Stmt.log 999] { st1 with log := [] }
-      s!"res={outStr o1} log={logStr st1.log} st={stStr st1} after={outStr o2} log2={logStr st2.log} st2={stStr st2} leaked={if st1.leaked then 1 else 0}"
+      s!"res={outStr o1} log={logStr st1.log} st={stStr st1} after={outStr o2} log2={logStr st2.log} st2={stStr st2}"
     | _, _, _ => "ERR bad numbers"
   | _ => "ERR bad case header"
 
